@@ -1,6 +1,7 @@
 package main
 
 import (
+	"os"
 	"bytes"
 	"fmt"
 	"io"
@@ -225,7 +226,7 @@ func c01Block(c *Ctx, r *Rng, cols []blockCol, rows, rev int, tag string) {
 		R.Count("unordered-map-values")
 	}
 	// ---- model bytes
-	if c.D != nil && !unordered {
+	if c.D != nil && !unordered && !c01SkipModel {
 		want, ok := expectedBlock(c, rev, true, cols, rows)
 		R.Compared()
 		if !ok {
@@ -358,7 +359,7 @@ func c01Block(c *Ctx, r *Rng, cols []blockCol, rows, rev int, tag string) {
 		}
 	}
 	// ---- the model as an independent reference decoder of the real column bytes
-	if c.D != nil && rows > 0 && len(cols) == 1 && len(enc) < 200000 && !unordered {
+	if c.D != nil && rows > 0 && len(cols) == 1 && len(enc) < 200000 && !unordered && !c01SkipModel {
 		bc := cols[0]
 		// skip the header: info + columns + rows + name + type + flag
 		hdr, _ := expectedBlock(c, rev, true, []blockCol{{name: bc.name, t: bc.t, cn: genCol(r, bc.t, 0, genOpts{}), col: bc.col}}, 0)
@@ -384,6 +385,10 @@ func unorderedAny(cols []blockCol) bool {
 	}
 	return false
 }
+
+// the model's dictionary is a list: a 65 536-entry LowCardinality column costs minutes per request in the driver, so
+// at that boundary the model is consulted for one representative pair only (the implementation oracle runs for all)
+var c01SkipModel bool
 
 var c01Revisions = []int{0, 51902, 51903, 54453, 54454, 54460, 54475}
 
@@ -448,7 +453,12 @@ func runC01(c *Ctx) {
 				if err != nil {
 					continue
 				}
+				c01SkipModel = d > 60000 && !(inner == "UInt32" && !strings.HasPrefix(wrap, "Array") && (d == 65534 || d == 65535) && os.Getenv("VERIF_BUILD") != "purego")
+				if c01SkipModel {
+					R.Count("lc-width:implementation-oracle-only")
+				}
 				c01Block(c, r, cols, rows, 54460, fmt.Sprintf("lc-width-%d", d))
+				c01SkipModel = false
 			}
 		}
 	}
